@@ -3,7 +3,7 @@
    candidate hopeful -- every candidate is elected, defeated or withdrawn (never two of these: the status
    is a single value).  Termination within the stated fuel and the exact number of winners are decided by
    the correspondence + oracle (partial); the crash outcomes of meek/warren under guarded arithmetic are
-   exhibited on the model (open findings K2, K3). *)
+   exhibited on the model (open findings K2, K14; the IndexError K3 is fixed, F11). *)
 From Coq Require Import ZArith List Bool String PArith.
 From Droop Require Import Model.KernelBase Model.Arith Model.Prelude Model.State Model.Prims Model.Election
   Proofs.CmdMeta Proofs.Decided Proofs.Forward Proofs.ForwardCount.
